@@ -44,11 +44,20 @@ fn main() {
             let profile = args.get(4).map(|s| s.as_str()).unwrap_or("c14").to_string();
             let maxlabels: usize = args.get(5).and_then(|s| s.parse().ok()).unwrap_or(40);
             let mut rng = Rng::new(seed);
+            let mut stuck = 0usize;
             for id in 0..n {
                 let mut r = rng.fork();
+                if stuck >= 5 {
+                    // the implementation hangs again and again: do not spend the whole budget waiting
+                    print_case(id, &profile, &[], &[], &[], &Some("skipped: five earlier cases of this batch timed out".into()));
+                    continue;
+                }
                 match profile.as_str() {
                     "c14" => {
                         let c = c14::gen_case(&rt, &mut r, maxlabels);
+                        if c.err.is_some() {
+                            stuck += 1;
+                        }
                         print_case(id, &profile, &c.cfg, &c.labels, &c.obs, &c.err);
                     }
                     "sqlite" | "r2d2" | "diesel" => {
@@ -58,6 +67,9 @@ fn main() {
                             _ => 2,
                         };
                         let c = pools::gen_case(&rt, &mut r, mgr, maxlabels.max(10));
+                        if c.err.is_some() {
+                            stuck += 1;
+                        }
                         print_case(id, &profile, &c.cfg, &c.labels, &c.obs, &c.err);
                     }
                     _ => {
